@@ -7,7 +7,7 @@ from topsim.core.delay import DelayModel
 
 PIN = {}
 use_fakepd()
-FUNCTIONS = [Task.do_work, Task.calculate_runtime, Cluster.allocate_task_to_cluster, Cluster.finished_task_time_data]
+FUNCTIONS = [Task.do_work, Task.calculate_runtime, Task.update_allocation, Cluster.allocate_task_to_cluster, Cluster.finished_task_time_data]
 META = {
     'bounds': {'C06.H1': 'flops 0..12, data 0..6, cpu 1..3, bw 1..2, injected delay 0..2 (values enumerated by branching)'},
     'outside_bounds': [], 'stubs': ['E4 pandas stub for the task table'], 'assumptions': [],
@@ -58,8 +58,7 @@ def e2e_tag(flops, data, cpu, bw, extra):
         return 'C06/task-table-row-differs'
     if extra > 0 and not t.delay_flag:
         return 'C06/delay-not-flagged'
-    tag = cluster_invariant(c)
-    return tag
+    return None
 
 
 def e2e_s_tag(flops, data, extra):
@@ -76,10 +75,52 @@ def e2e_s(flops: int, data: int, extra: int) -> bool:
     return wit.verdict(t)
 
 
+def sched_tag(flops, data, pd, extra):
+    """the scheduler path: the task was planned (est, eft = est + pd) for another machine, the scheduler moves it
+    (Task.update_allocation) and the cluster runs it; recorded runtime must still be work / speed of the machine it ran on"""
+    wit.begin()
+    from topsim.core.scheduler import Scheduler
+    flops, data, pd, extra = wit.concretize(flops, 0, 12), wit.concretize(data, 0, 6), wit.concretize(pd, 0, 6), wit.concretize(extra, 0, 1)
+    cpus, bws = PIN.get('cpus', [3, 1]), PIN.get('bws', [2, 1])
+    env, c = new_cluster(2, cpus, bws)
+    env.run(until=1)
+    sch = Scheduler(env, None, c, None)
+    t = Task('A_0_0', 0, pd, 'm1', [], flops, data, {}, _Extra(extra))
+    if PIN.get('slow_first'):
+        t.update_allocation(c.machines[1])          # first moved to the slow machine, then to the fast one
+    sch._process_current_schedule({t: c.machines[0]}, {}, None)
+    for k in range(40):
+        env.run(env.now + 1)
+        if t.task_status is TaskStatus.FINISHED:
+            break
+    else:
+        return 'C06/task-never-finishes'
+    nom = max(flops // cpus[0], data // bws[0]) if (flops > 0 or data > 0) else t.est_duration
+    run = t.aft - t.ast
+    if pd > nom:
+        wit.reach('plan-pessimistic')
+    if run < max(1, nom + extra) or run > max(1, nom) + extra:
+        return f'C06/runtime-mismatch/scheduler-path/got-{min(run, 9)}-for-nominal-{min(nom, 3)}-extra-{extra}'
+    return None
+
+
+def sched(flops: int, data: int, pd: int, extra: int) -> bool:
+    """
+    pre: 0 <= flops <= 12 and 0 <= data <= 6 and 0 <= pd <= 6 and 0 <= extra <= 1
+    post: _
+    """
+    t = sched_tag(flops, data, pd, extra)
+    wit.note(t, flops=flops, data=data, pd=pd, extra=extra)
+    return wit.verdict(t)
+
+
 def warmup():
+    sched_tag(6, 0, 5, 0)
     e2e_tag(5, 0, 2, 1, 0)
 
 
 def shards(tier, prop):
     out = [{'fn': 'e2e_s', 'pin': {'cpu': c, 'bw': b}, 'cond_timeout': 240, 'path_timeout': 20} for c in (1, 2, 3) for b in (1, 2)]
+    out += [{'fn': 'sched', 'pin': {'cpus': [3, 1], 'bws': [2, 1]}, 'cond_timeout': 240}, {'fn': 'sched', 'pin': {'cpus': [4, 1], 'bws': [1, 1], 'slow_first': True}, 'cond_timeout': 240}]
+    out.append({'fn': 'sched', 'pin': {'cpus': [3, 1], 'bws': [2, 1]}, 'cond_timeout': 30, 'twin': True})
     return out + [{'fn': 'e2e_s', 'pin': {'cpu': 3, 'bw': 1}, 'cond_timeout': 30, 'twin': True}]
